@@ -34,7 +34,7 @@ enum Fam : uint32_t {
 };
 
 struct Action {
-    enum K { RUN, PUB, SUB, UNSUB, RECV, DISC, CANCEL, DESTROY, MOVE_ASSIGN, SIGNAL, BARRIER, WAIT_HS, BPUB, REAUTH, MARK_STOP, RERUN_CHECK, NOP } k = NOP;
+    enum K { RUN, PUB, SUB, UNSUB, RECV, DISC, CANCEL, DESTROY, MOVE_ASSIGN, SIGNAL, BARRIER, WAIT_HS, BPUB, REAUTH, MARK_STOP, RERUN_CHECK, KILLCONN, NOP } k = NOP;
     int qos = 0, tag = 0; bool retain = false; std::string topic, payload; ref::Props props;
     std::vector<std::pair<std::string, uint8_t>> filters;
     int target_op = -1; int sig_type = 1;      // SIGNAL: op index in App::ops; 1 total, 2 partial, 4 terminal
@@ -53,6 +53,7 @@ struct OpRec {
     std::shared_ptr<asio::cancellation_signal> sig;
     size_t wire_mark = 0, wire_mark_done = 0, wlog_mark_done = 0; int conn_writes_at_init = 0; bool expect_reject = false; int expect_ec = 0; int lowest_free_id_before = -1, lowest_free_id_after = -1;
     size_t bytes_written_at_init = 0, bytes_written_after_init = 0; ref::Props connack_snapshot; bool had_connack = false;
+    size_t op_seq_init = 0; uint64_t out_volume_before = 0, out_volume_after = 0; bool done_in_same_step = false; int step_init = 0;
     int epoch = 0;                              // client incarnation (bumped by CANCEL / DISC / MOVE_ASSIGN)
     bool after_stop = false;
     int recv_seq = -1;
@@ -83,7 +84,11 @@ public:
     bool stopped_phase = false; int64_t t_stop = -1;
     bool drain_checked = false;
     // results of the C05 drain check
-    struct DrainResult { bool done = false; bool ioc_stopped = false; int parked = 0; int timers = 0; int incomplete = 0; } drain_result;
+    struct DrainResult { bool done = false; bool ioc_stopped = false; int parked = 0; int timers = 0; int incomplete = 0; int64_t t = 0; std::string what; } drain_result, stop_snap;
+    bool running = false; std::vector<int64_t> stop_times; std::vector<size_t> stop_seqs; int newer_pending_at_snap = 0;
+    const std::vector<int>* cur_prefix = nullptr; int step_no = 0; int epoch_at_quiet = 0;
+    uint64_t out_volume() const;
+    void take_stop_snapshot(const std::string& what);
 
     explicit World(const Scenario& s);
     ~World();
